@@ -65,3 +65,28 @@ Example ex_partial_inhabited :
   simple_top (T.Paren "(" (T.Sym "r3" false)) = true /\
   tc_view (T.Paren "(" (T.Sym "r3" false)) = Some (11, T.ENone, None).
 Proof. vm_compute. split; reflexivity. Qed.
+
+(* PARTIAL 2 (supersedes the comment above): agreement for EVERY top constructor (Number, CharLiteral, Symbol,
+   '.', parenthesis, Infix, Prefix incl. '@', Postfix, Call) of forgettable '%'-free operands on which hoist()
+   does not fire ([not_hoisted]: an Infix / Prefix top has no '(reg)' call at the bottom of its rhs / operand
+   spine).  Covers all twelve addressing forms in their canonical spelling except e(rN) / @e(rN) with an
+   operator on top of e (e.g. 'a+2(r1)', '@-2(r1)', '-2(r1)'): those hoisted operands are the only ones still
+   missing for the full statement; ex_classify above checks one by vm_compute. *)
+Theorem C01_classify_agrees_partial2 : forall t t', forget t = Some t' -> T.has_percent t = false ->
+  not_hoisted t = true -> tc_view t = cl_view_res (C.classify t').
+Proof. exact classify_agrees_unhoisted. Qed.
+Print Assumptions C01_classify_agrees_partial2.
+Example ex_partial2_inhabited :
+  let t := T.Prefix "@" (T.Call (T.Num "2" 2 false false false) (T.Sym "r1" false) None) None in
+  let u := T.Call (T.Prefix "@" (T.Num "2" 2 false false false) None) (T.Sym "sp" false) None in
+  not_hoisted ex_tree = false /\ not_hoisted t = false /\ not_hoisted u = true /\
+  tc_view u = Some (62, T.EGai, Some (C.TNum 2)).
+Proof. vm_compute. repeat split; reflexivity. Qed.
+
+(* FULL (supersedes the two partial statements, kept above): on every forgettable '%'-free operand, hoisted or
+   not, TreeCache's classification (6-bit field mode|register, how the extension word is obtained, the subtree
+   kept for it) is Classify's.  '%e' registers are outside (C01_classify_agrees_percent_refuted). *)
+Theorem C01_classify_agrees : forall t t', forget t = Some t' -> T.has_percent t = false ->
+  tc_view t = cl_view_res (C.classify t').
+Proof. exact classify_agrees_full. Qed.
+Print Assumptions C01_classify_agrees.
